@@ -13,6 +13,7 @@ import (
 	"sync/atomic"
 	"time"
 
+	"github.com/kubewharf/kubebrain/pkg/backend/tso"
 	"github.com/kubewharf/kubebrain/pkg/server/service/leader"
 	"github.com/kubewharf/kubebrain/pkg/server/service/revision"
 
@@ -39,6 +40,8 @@ type gatedFollower struct {
 	arrived chan string
 	over    chan struct{}
 	setVal  map[string]uint64 // the revision each reader stores
+	tsoMu   sync.Mutex
+	tso     tso.TSO
 }
 
 func (g *gatedFollower) SetCurrentRevision(v uint64) {
@@ -54,7 +57,14 @@ func (g *gatedFollower) SetCurrentRevision(v uint64) {
 	case <-ch:
 	case <-g.over:
 	}
-	atomic.StoreUint64(&g.rev, v) // a plain store, like tso.Commit
+	// what the real backend does with it: the REAL revision counter (pkg/backend/tso)
+	g.tsoMu.Lock()
+	if g.tso == nil {
+		g.tso = tso.NewTSO()
+	}
+	g.tsoMu.Unlock()
+	g.tso.Commit(v)
+	atomic.StoreUint64(&g.rev, g.tso.GetRevision())
 }
 
 // cmdSyncRun (C18, part 2) replays schedules of the follower read protocol (Roles.tla) on the
